@@ -836,7 +836,7 @@ def c15(ctx: Ctx) -> None:
     ctx.trusted += ['functools.partial', 'WeakKeyDictionary']
     ctx.rule('C15-R1', 'the partial returned for `func is None` re-binds exactly the keyword-only options, each to the same-named parameter', 3)
     ctx.rule('C15-R2', 'every option reaches its point of use in the direct form (def-use chains)', 6)
-    ctx.rule('C15-R3', 'per-loop registry: keyed by get_running_loop() of the same activation, WeakKeyDictionary, built with all options and stored before use, no suspension between miss and store', 3)
+    ctx.rule('C15-R3', 'per-loop registry: keyed by get_running_loop() of the same activation, WeakKeyDictionary, built with all options and stored before use, no suspension between miss and store, no other registry mutation', 4)
     ctx.rule('C15-R4', 'the option decorators share one idiom', 1)
     decos = option_decorators(p)
     names = sorted(d.name for d in decos)
@@ -1003,6 +1003,15 @@ def _registry(ctx: Ctx, p) -> None:
         ctx.check('C15-R3', f'{norm(s.ast)} stored right after the miss, before use', g.loc(s), w is None,
                   'atomic create-and-register', 'two calls on one loop can both build a batcher', witness=render(g, w),
                   construct=construct_key(wrapper.qualname, 'non-atomic registry'))
+    muts = [n for n in g.nodes if (n.kind == 'call' and isinstance(n.ast.func, ast.Attribute) and isinstance(n.ast.func.value, ast.Name)
+                                   and n.ast.func.value.id == reg and n.ast.func.attr in ('clear', 'pop', 'popitem', 'update', 'setdefault'))
+            or (n.kind == 'del_sub' and isinstance(n.ast.value, ast.Name) and n.ast.value.id == reg)]
+    outer = [x for x in own_nodes(abb.node) if isinstance(x, ast.Call) and isinstance(x.func, ast.Attribute) and isinstance(x.func.value, ast.Name)
+             and x.func.value.id == reg and x.func.attr in ('clear', 'pop', 'popitem')]
+    ctx.check('C15-R3', f'registry mutations besides the store on a miss: {[norm(n.ast) for n in muts] + [norm(x) for x in outer]}',
+              g.loc(muts[0]) if muts else f'{FILE}:{wrapper.lineno}', not muts and not outer,
+              'a loop\'s batcher lives as long as its loop', 'one loop\'s call evicts the batchers of other live loops: their queue, retention and in-flight state are lost',
+              construct=construct_key(wrapper.qualname, 'registry mutated', [norm(n.ast) for n in muts]))
     # use: the awaited call is on the looked-up / stored batcher
     uses = [n for n in g.nodes if n.kind == 'await']
     bvars = {n.meta['name'] for n in g.nodes if n.kind == 'store_name' and (
